@@ -15,7 +15,7 @@ theorem requestTerminate_dv (s : EState) (k r : String) : dv (requestTerminate s
   split
   · rfl
   · split
-    · rw [refuse_dv, termPrep_dv]
+    · rw [refuse_dv]
     · rename_i s' hs
       rw [termAfter_dv, setState_dv hs, termPrep_dv]
 
